@@ -67,3 +67,60 @@ Proof.
     with (l * l * (p_r1 (run p ops) * p_r2 (run p ops) * (p_S p * p_S p))) by ring.
   apply Z.mul_le_mono_nonneg_l; assumption.
 Qed.
+
+(** ------------------------------------------------------------------ the two-pair world
+    [w_p] is the pair under test, [w_q] the trusted pair that receives its fee slices as no-fee swaps
+    ([apply_ext]).  Both keep K / S^2 monotone over every history of the world. *)
+Definition KS_le (p p' : pair) : Prop :=
+  0 < p_S p' /\ p_r1 p * p_r2 p * (p_S p' * p_S p') <= p_r1 p' * p_r2 p' * (p_S p * p_S p).
+
+Lemma KS_le_refl p : 0 < p_S p -> KS_le p p.
+Proof. intros H. split; [exact H | lia]. Qed.
+
+Lemma KS_le_trans p q r : 0 < p_S p -> KS_le p q -> KS_le q r -> KS_le p r.
+Proof.
+  intros _ [S1 K1] [S2 K2]. split; [exact S2|].
+  eapply cross_trans; [exact S1 | exact K1 | exact K2].
+Qed.
+
+Lemma apply_ext_K l : forall q q', apply_ext q l = Ok q' -> PairInv q -> 0 < p_S q -> KS_le q q'.
+Proof.
+  induction l as [|[[t a] r] tl IH]; intros q q' H Hq HS; simpl in H.
+  - inversion H; subst. apply KS_le_refl; exact HS.
+  - apply bind_ok in H. destruct H as ([[q1 o1] e1] & Hs & H).
+    apply ep_swap_no_fee_spec in Hs; auto.
+    destruct Hs as (I1 & K1 & _ & [LS _] & _).
+    assert (HS1 : 0 < p_S q1) by (rewrite LS; exact HS).
+    apply KS_le_trans with (q := q1); [exact HS | | eapply IH; eauto].
+    split; [exact HS1 | exact (K1 HS)].
+Qed.
+
+Lemma wstep_total_K w op : WorldInv w -> 0 < p_S (w_p w) -> 0 < p_S (w_q w) ->
+  KS_le (w_p w) (w_p (wstep_total w op)) /\ KS_le (w_q w) (w_q (wstep_total w op)).
+Proof.
+  intros [Hp Hq] HSp HSq. unfold wstep_total. destruct (wstep w op) as [[[w' o] e]|] eqn:E.
+  - unfold wstep in E.
+    apply bind_ok in E. destruct E as ([[p' o1] e1] & Hs & E).
+    apply bind_ok in E. destruct E as (q' & Hx & E). inversion E; subst; clear E. simpl.
+    split.
+    + pose proof (step_S_floor _ _ _ _ _ Hp HSp Hs) as Hf.
+      pose proof (step_spec _ _ _ _ _ Hs Hp) as (_ & HK & _).
+      split; [unfold MINIMUM_LIQUIDITY in Hf; lia | exact (HK HSp)].
+    + eapply apply_ext_K; eauto.
+  - split; apply KS_le_refl; assumption.
+Qed.
+
+Lemma wrun_K ops : forall w, WorldInv w -> 0 < p_S (w_p w) -> 0 < p_S (w_q w) ->
+  KS_le (w_p w) (w_p (wrun w ops)) /\ KS_le (w_q w) (w_q (wrun w ops)).
+Proof.
+  induction ops as [|op t IH]; intros w Hw HSp HSq.
+  - unfold wrun; simpl. split; apply KS_le_refl; assumption.
+  - change (wrun w (op :: t)) with (wrun (wstep_total w op) t).
+    destruct (wstep_total_K w op Hw HSp HSq) as (Kp & Kq).
+    assert (Hw1 : WorldInv (wstep_total w op)).
+    { unfold wstep_total. destruct (wstep w op) as [[[w' o] e]|] eqn:E; [|exact Hw].
+      apply wstep_inv in E; tauto. }
+    destruct (IH _ Hw1 (proj1 Kp) (proj1 Kq)) as (Kp2 & Kq2).
+    split; [eapply KS_le_trans with (q := w_p (wstep_total w op)) | eapply KS_le_trans with (q := w_q (wstep_total w op))];
+      eauto.
+Qed.
